@@ -330,3 +330,27 @@ class IntegerLemma(_c18.IntegerRoundTrip):
 class BooleanLemma(_c18.BooleanRoundTrip):
     id = 'C05.converter_lemma.boolean'
     prop = 'C05'
+
+
+@register
+class AllowedValuesIsEmpty(FnCheck):
+    id = 'C05.allowed_values_is_empty'
+    prop = 'C05'
+    target = 'sdc11073.mdib.statecontainers:AllowedValuesType.is_empty'
+    doc = ('AllowedValuesType.is_empty() - the test that decides whether pm:AllowedValues is written at all - is true '
+           'exactly for "no value list" or an empty list: a list with one or more values is never dropped on writing')
+
+    def setup(self, b):
+        st = b.st
+        self.is_none = b.bool('value_is_none')
+        lst = b.obj('Value')
+        st.assume(z3.Select(st.get_arr('C'), lst.e) == b.ex.ctx.builtin_class_ids['list'])
+        self.seq = z3.Select(st.get_arr('L'), lst.e)
+        self.o = b.obj('self', Value=vany(z3.If(self.is_none.e, Val.none, Val.ref(lst.e)), maybe_none=True))
+        return self.o, [], {}
+
+    def post(self, ex, st0, st, outcome, b):
+        if outcome[0] == 'exc':
+            ex.oblige(st, 'never_raises', z3.BoolVal(False), info={'exc': repr(outcome[1])})
+            return
+        ex.oblige(st, 'empty_iff_no_values', truthy(outcome[1], st) == z3.Or(self.is_none.e, z3.Length(self.seq) == 0))
